@@ -31,8 +31,9 @@ def lemmas(idx):
     order = []; seen = {}; cover = []; notes = {'untranslated': []}; n = 0
     def add(cfg, f, vs, args, ret_t, lanes, sname, scalar_k=None):
         nonlocal n
+        args = alg.kxargs(args); lanes = alg.kxl(lanes)
         if f['fid'] is None or f.get('status') == 'missing-callee': notes['untranslated'].append('%s %s' % (cfg, f['key'])); return
-        structs = idx.structs(cfg); run = 'run OA tbl 400 %d%%positive [%s]' % (f['fid'], '; '.join(args))
+        structs = idx.structs(cfg); run = 'rnorm (run OA tbl 400 %d%%positive [%s])' % (f['fid'], '; '.join(args))
         if scalar_k: rhs = 'Ok (%s %s)' % (VF(scalar_k), lanes[0]); sh = 'SL'
         else: rt = sym(structs, ret_t, 'r', []); rhs = 'Ok (%s)' % tree_fill(rt, iter(lanes)); sh = ty_shape(structs, ret_t)
         lhs = ('rerase OA (%s) (%s)' % (sh, run)) if core.shape_has_hidden(sh) else run
@@ -46,6 +47,7 @@ def lemmas(idx):
             st = f['self']; tn = tname(st) if st is not None else None
             if tn not in QUATS or f['generic'] or f['by_ref']: continue
             k = QUATS[tn]; name = f['name']; tr = f['trait'][0] if f['trait'] else None
+            if tr and tr.endswith('Assign'): tr = tr[:-6]; name = name[:-7]      # q *= p etc.: the model function returns the updated self
             def Q(pre, vs): t = sym(structs, st, pre, vs); return t, [l[2] for l in tree_leaves(t)]
             try:
                 if (name == 'mul_quat' or (tr == 'Mul' and name == 'mul')) and f['has_self'] and len(f['params']) == 1 and tname(f['params'][0][1]) == tn:
